@@ -48,10 +48,13 @@ theorem t_perspective_bad_near (fovy a n f : K) (h1 : 0 < fovy) (h2 : fovy < Lit
       perspective fovy a n f = none := by
   refine ⟨by tr_auto, by simp [perspective, sabs, h1, h2, h3, h4, h5]⟩
 
-/-- `planar` on the path `aspect ≥ 0`, `near < far`, focal point in front of the nearer plane -/
+/-- `planar` on the path `aspect ≥ 0`, `near < far`, focal point in front of the nearer plane.  `hreg` excludes the one input
+class on which exact arithmetic and IEEE arithmetic part ways without any comparison being made: `tan(fovy/2) = 0` with
+`height = 0`, where `inv_f` is `0/0` (the model follows IEEE there: the assertion fails; see `Cgm/Model/Transform.lean`) -/
 theorem t_planar_ok (fovy a h n f : K) (h1 : -(Lits.radFull / 2) < fovy) (h2 : fovy < Lits.radFull / 2) (h3 : 0 ≤ h)
     (h4 : ¬ a < 0) (h5 : absDiffEqD a (0 : K) = false) (h6 : absDiffEqD f n = false) (h7 : n < f)
-    (h8 : -(1 / planarInvF fovy h) < n) :
+    (h8 : -(1 / planarInvF fovy h) < n)
+    (hreg : ¬ ((¬ Rad.tan (fovy / (two : K)) < 0 ∧ ¬ 0 < Rad.tan (fovy / (two : K))) ∧ ¬ 0 < h)) :
     t_planar_ok (envL [fovy, a, h, n, f]) =
       .okG (((planar fovy a h n f).map M4.toList).getD [])
         [.cmp fovy (-(Lits.radFull / 2)) .gt, .cmp fovy (Lits.radFull / 2) .lt, .le 0 h true, .lt a 0 false,
@@ -59,8 +62,12 @@ theorem t_planar_ok (fovy a h n f : K) (h1 : -(Lits.radFull / 2) < fovy) (h2 : f
   have hp : planar fovy a h n f = some (planarMat fovy a h n f) := by
     have h8' := h8
     simp at h8'
-    simp [planar, sabs, smin, smax, h1, h2, h3, h4, h5, h6, h7]
-    intro hc; exact absurd hc (not_le.mpr h8')
+    have hfocal : -((1 : K) / planarInvF fovy h) < smin f n := by
+      simp only [smin, if_pos h7]; exact h8
+    unfold planar
+    simp only [sabs, if_neg h4, h1, h2, h3, h5, h6, hreg, hfocal, not_true_eq_false, not_false_eq_true, if_false, if_true,
+      Bool.false_eq_true, or_true, true_or]
+    simp [Angle.turnDiv, h1, h2]
   rw [hp]; tr_auto
 theorem t_to_perspective (fovy a n f : K) :
     t_to_perspective (envL [fovy, a, n, f]) = .okS (toPerspective fovy a n f) := by tr_auto
